@@ -4,7 +4,7 @@
 (* them, so every constant is defined here and bound with  Const <- Def.    *)
 EXTENDS Calendar
 
-AllModes == {"cal", "date", "shift", "time", "yf"}
+AllModes == {"cal", "date", "shift", "time", "yf", "frac"}
 
 \* the calendar machine always runs to Excel's last day
 MCLastSerial == 2958465
@@ -51,4 +51,18 @@ BigYfDays == MCYfDays \cup
   {30, 31, 32, 58, 365, 367, 425, 1461, 1520, 36525, 36585, 39813, 39814,
    40237, 40543, 43861, 43889, 43921, 44255, 45000, 45291, 45352, 45657,
    73049, 73110, 109574, 182683, 1000000, 2958100, 2958435}
+
+\* arguments with a fraction: quarters.  Years 1900, 2009.5, 4.25 (= 1904);
+\* pinned months / days -1.5, -0.25, 0.5, 1.5, 12.25, 12.75, 13.25 / -1.5,
+\* -0.25, 0.5, 1.5, 28.75, 31.5, 32.25 while the other argument walks -40..60
+MCFracDen == 4
+MCFracYears  == {7600, 8038, 17}
+BigFracYears == MCFracYears \cup {7601, 7603, 7618, 8098, 39998}
+MCFracMonthPins == {-6, -1, 2, 6, 49, 51, 53}
+MCFracDayPins   == {-6, -1, 2, 6, 115, 126, 129}
+\* EOMONTH / EDATE from every quarter of these days, months -30..30 by quarters
+MCFracStarts  == {1, 59, 60, 61, 39844, 43890, 2958465}
+BigFracStarts == MCFracStarts \cup {31, 366, 425, 36585, 39872, 40000, 45351, 73050, 2958101}
+MCFracShiftLo == -30
+MCFracShiftHi == 30
 =============================================================================
